@@ -232,7 +232,7 @@ func (E *Engine) unop(st *State, x *ssa.UnOp) []*State {
 		T := x.Type()
 		r := sx("-", v.S)
 		if isUnsigned(T) {
-			r = wrapTo(T, r)
+			r = E.wrapSt(st, T, r)
 		}
 		st.regs[x] = &Val{T: T, S: r, Sort: SInt}
 		return nil
@@ -315,7 +315,7 @@ func (E *Engine) indexAddr(st *State, x *ssa.IndexAddr) *Val {
 	switch t := types.Unalias(x.X.Type()).Underlying().(type) {
 	case *types.Slice:
 		E.boundsCheck(st, x, idx.S, base.F[2].S, "index in range of slice")
-		return &Val{T: x.Type(), LV: &LVal{Kind: lvElem, Ref: base.F[0].S, Idx: sx("+", base.F[1].S, idx.S), Root: t.Elem()}}
+		return &Val{T: x.Type(), LV: &LVal{Kind: lvElem, Ref: base.F[0].S, Idx: E.at(base.F[1].S, idx.S), Root: t.Elem()}}
 	case *types.Pointer:
 		arr := t.Elem().Underlying().(*types.Array)
 		E.nilCheck(st, x, base, "array pointer")
@@ -480,7 +480,7 @@ func (E *Engine) convert(st *State, x *ssa.Convert) *Val {
 		if c, isC := isConstTerm(v.S); isC && ok && c.Cmp(lo) >= 0 && c.Cmp(hi) <= 0 {
 			return &Val{T: x.Type(), S: v.S, Sort: SInt}
 		}
-		return &Val{T: x.Type(), S: wrapTo(x.Type(), v.S), Sort: SInt}
+		return &Val{T: x.Type(), S: E.wrapSt(st, x.Type(), v.S), Sort: SInt}
 	case fok && tok && fb.Info()&types.IsString != 0 && tb.Info()&types.IsString != 0:
 		return retype(v, x.Type())
 	case fok && tok && (fb.Info()&types.IsFloat != 0 || tb.Info()&types.IsFloat != 0):
@@ -539,6 +539,7 @@ func (E *Engine) initStringTheory() {
 		axiom{Name: "slen-nonneg", Trigger: []string{fSlen}, Body: "(forall ((s Str)) (! (>= (|slen| s) 0) :pattern ((|slen| s))))"},
 		axiom{Name: "sat-byte", Trigger: []string{fSat}, Body: "(forall ((s Str) (i Int)) (! (and (<= 0 (|sat| s i)) (<= (|sat| s i) 255)) :pattern ((|sat| s i))))"},
 		axiom{Name: "seq-def", Trigger: []string{fSeq}, Body: "(forall ((a Str) (b Str)) (! (= (|seq| a b) (and (= (|slen| a) (|slen| b)) (forall ((i Int)) (! (=> (and (<= 0 i) (< i (|slen| a))) (= (|sat| a i) (|sat| b i))) :pattern ((|sat| a i)) :pattern ((|sat| b i)))))) :pattern ((|seq| a b))))"},
+		axiom{Name: "seq-ground", Trigger: []string{fSeq}, Body: "(forall ((a Str) (b Str)) (! (=> (|seq| a b) (and (= (|sat| a 0) (|sat| b 0)) (= (|sat| a 1) (|sat| b 1)) (= (|sat| a 2) (|sat| b 2)) (= (|sat| a 3) (|sat| b 3)) (= (|sat| a 4) (|sat| b 4)) (= (|sat| a 5) (|sat| b 5)) (= (|sat| a 6) (|sat| b 6)))) :pattern ((|seq| a b))))"},
 		axiom{Name: "seq-eq", Trigger: []string{fSeq}, Body: "(forall ((a Str) (b Str)) (! (=> (|seq| a b) (= a b)) :pattern ((|seq| a b))))"},
 		axiom{Name: "concat-len", Trigger: []string{fConcat}, Body: "(forall ((a Str) (b Str)) (! (= (|slen| (|sconcat| a b)) (+ (|slen| a) (|slen| b))) :pattern ((|sconcat| a b))))"},
 		axiom{Name: "concat-at", Trigger: []string{fConcat}, Body: "(forall ((a Str) (b Str) (i Int)) (! (=> (and (<= 0 i) (< i (+ (|slen| a) (|slen| b)))) (= (|sat| (|sconcat| a b) i) (ite (< i (|slen| a)) (|sat| a i) (|sat| b (- i (|slen| a)))))) :pattern ((|sat| (|sconcat| a b) i))))"},
